@@ -137,6 +137,11 @@ def step (_ : Unit) (ws : List String) : Unit × String :=
       let s ← schemaOf ty
       let (t, _) ← parseTree (2 * rest.length + 4) rest
       some (if conforms s t then hex (trySerializeRecord (toVal t) k) else "schema-mismatch")
+    -- a value the serialiser refuses: an error, and (the model being a pure function of its input) no effect on later encodes
+    | ["recfail", k, n] => do
+      let _ ← kindOf k
+      let _ ← n.toNat?
+      some "err"
     | ["dec", ty, h] => do
       let bs ← unhex h
       some (match decodeAs ty bs with
